@@ -114,17 +114,42 @@ func decideRef(t tuple) (acc, shape bool) {
 	return ref.MultiVerify(ref.NewTranscript(t.label), ref.SRS(), elToRef(&d), pr, Cs, ys, zs)
 }
 
-func honestTuple(c *ipa.IPAConfig, s stmt) tuple {
-	proof, is, ok, perr, verr, _ := proveVerify(c, s)
-	if perr != nil || verr != nil || !ok {
-		panic(fmt.Sprintf("C02 base statement does not verify (a C01 matter): %v %v %v", ok, perr, verr))
+// honestTuple: the prover's proof for s as a value tuple. ok=false when the base cannot be used: the prover
+// failed or both verifiers reject its proof (a C01/C03 matter — noted, the unit is then not exhaustive); if the
+// implementation's verdict on the prover's proof differs from the reference verifier's, that is a C02
+// violation in itself.
+func honestTuple(r *core.Result, c *ipa.IPAConfig, s stmt) (tuple, bool) {
+	var proof *multiproof.MultiProof
+	var is implStmt
+	var ok bool
+	var perr, verr error
+	if !timed(r, "c02.panic", "CreateMultiProof / CheckMultiProof", "honest statement "+s.String(), func() { proof, is, ok, perr, verr, _ = proveVerify(c, s) }) {
+		return tuple{}, false
+	}
+	if perr != nil || proof == nil {
+		r.Note("base_unusable", fmt.Sprintf("%s: the prover returned %v (a C01 matter)", s.String(), perr))
+		r.Exhaustive = false
+		return tuple{}, false
 	}
 	t := tuple{label: s.label, D: proof.D, L: proof.IPA.L, R: proof.IPA.R, A: proof.IPA.A_scalar, zs: is.zs}
 	for i := range is.Cs {
 		t.Cs = append(t.Cs, *is.Cs[i])
 		t.ys = append(t.ys, *is.ys[i])
 	}
-	return t.clone()
+	t = t.clone()
+	acc, _ := decideRef(t)
+	implAcc := ok && verr == nil
+	r.Evals++
+	if implAcc != acc {
+		vio(r, "c02.agree", "CheckMultiProof", "the prover's own proof for "+s.String(), fmt.Sprintf("the reference verifier's decision: accept=%v", acc), fmt.Sprintf("accept=%v err=%v", ok, verr))
+		return t, false
+	}
+	if !acc {
+		r.Note("base_unusable", fmt.Sprintf("%s: the prover's proof is rejected by both verifiers (a C01/C03 matter)", s.String()))
+		r.Exhaustive = false
+		return t, false
+	}
+	return t, true
 }
 
 func sameEl(a, b *banderwagon.Element) bool { return ref.SameClass(elToRef(a), elToRef(b)) }
@@ -338,8 +363,11 @@ func c02Units(ctx *core.Ctx) []core.Unit {
 			us = append(us, core.Unit{Name: fmt.Sprintf("base %d (%s) perturbations part %d/%d", bi_, s, part, parts), Run: func(ctx *core.Ctx, r *core.Result) {
 				needRef()
 				c := conf()
-				base := honestTuple(c, s)
-				other := honestTuple(c, bases[(bi_+1)%len(bases)])
+				base, ok1 := honestTuple(r, c, s)
+				other, ok2 := honestTuple(r, c, bases[(bi_+1)%len(bases)])
+				if !ok1 || !ok2 {
+					return
+				}
 				ps := perturbations(base, other, bi_, ctx.Thorough())
 				// a statement about the zero polynomial has the all-identity proof for every index, so changed
 				// statements can be true and provable by the same proof: only agreement with the reference is demanded
@@ -480,7 +508,10 @@ func c02Units(ctx *core.Ctx) []core.Unit {
 			s.zs = append(s.zs, (i*7)%256)
 			s.polys = append(s.polys, pick(polys, 8+i%6))
 		}
-		base := honestTuple(c, s)
+		base, okb := honestTuple(r, c, s)
+		if !okb {
+			return
+		}
 		for _, mod := range []string{"honest", "y_1024+1", "y_1023+1 and y_1024 adjusted", "swap openings 1023,1024"} {
 			t := base.clone()
 			one := fr.One()
@@ -526,7 +557,10 @@ func c02Units(ctx *core.Ctx) []core.Unit {
 				st.share = append(st.share, k+1)
 				st.zs = append(st.zs, []int{7, 9, 200, 9, 7}[(i+pi2)%5])
 			}
-			base := honestTuple(c, st)
+			base, okb := honestTuple(r, c, st)
+			if !okb {
+				continue
+			}
 			one := fr.One()
 			for _, mod := range []string{"honest", "y_last+1", "y of the second occurrence of B := the value of C at that index"} {
 				t := base.clone()
@@ -570,7 +604,10 @@ func c02Units(ctx *core.Ctx) []core.Unit {
 	us = append(us, core.Unit{Name: "shape errors", Run: func(ctx *core.Ctx, r *core.Result) {
 		needRef()
 		c := conf()
-		base := honestTuple(c, bases[2])
+		base, okb := honestTuple(r, c, bases[2])
+		if !okb {
+			return
+		}
 		// history: after every malformed call, a fixed false claim must still be rejected and the honest
 		// tuple still accepted (nothing may survive from a call that ended with an error)
 		falseClaim := base.clone()
@@ -679,7 +716,7 @@ func c02Units(ctx *core.Ctx) []core.Unit {
 				ze := frFromBig(cs.z)
 				proof, err := ipa.CreateIPAProof(common.NewTranscript("ipa"), c, cm, a, ze)
 				if err != nil {
-					panic("C02: CreateIPAProof failed: " + err.Error())
+					panic(core.ImplFault{API: "ipa.CreateIPAProof", Input: "honest opening", Got: "error: " + err.Error()})
 				}
 				y := ref.Inner(cs.poly.V, ref.BVec(cs.z))
 				type ic struct {
